@@ -562,6 +562,14 @@ pub fn replay(v: &Value) {
         println!("{ms} ms -> {:?}", b.build().watchdog_factors);
         return;
     }
+    if r["world"] == "w2-dp" {
+        // C04 drive mode (b): DpMaster under a real FdlActiveStation
+        let answers: Vec<u8> = r["answers"].as_array().unwrap().iter().map(|x| x.as_u64().unwrap() as u8).collect();
+        let n = r["peripherals"].as_u64().unwrap() as usize;
+        println!("answers: {:?}", answers.iter().map(|a| format!("{:?}", crate::props::w2props::DP_ANSWERS[*a as usize])).collect::<Vec<_>>());
+        println!("result: {:?}", crate::props::w2props::dp_under_fdl_images(n, &answers, false, answers.len() + 6).map_err(|p| p.msg));
+        return;
+    }
     crate::w4::replay(v);
     if let Some(k) = r["then"].as_str() {
         let cfg = Arc::new(cfg_from_json(&r["cfg"]));
